@@ -206,6 +206,49 @@ static void check_conv(const Conv& cv, vh::Rng& r, bool thorough) {
         if (oc != Outcome::Threw) {
             vh::violation(vh::fmt("C08/%s/non_multiple_accepted", cv.kind.c_str()), cfg + vh::fmt(": frame of %d samples (not a multiple of M=%d) was accepted", badlen, M));
         }
+        //a rejected frame is not input: accepted frames before and after it must still give the chain of the accepted stream
+        auto cj = cv.make();
+        const int nb1 = int(r.range(2, 12)) + nh / std::max(1, L * M);
+        const int nb2 = int(r.range(2, 12)) + nh / std::max(1, L * M);
+        const arr_real xa = gauss_real(r, (nb1 + nb2) * M);
+        arr_real x1(nb1 * M), x2(nb2 * M);
+        for (int i = 0; i < nb1 * M; ++i) {
+            x1[i] = xa[i];
+        }
+        for (int i = 0; i < nb2 * M; ++i) {
+            x2[i] = xa[nb1 * M + i];
+        }
+        vh::begin_case(cv.kind.c_str(), "%s rejected frame of %d samples between accepted frames", cfg.c_str(), badlen);
+        arr_real ya = cj->process(x1);
+        bool threw = false;
+        try {
+            (void)cj->process(gauss_real(r, badlen) * 3.0);
+        } catch (const std::exception&) {
+            threw = true;
+        }
+        if (threw) {
+            ya |= cj->process(x2);
+            vh::Hasher h3;
+            h3.s(cfg).s("rejected_between").u64(hash_arr(xa));
+            vh::count(h3.get(), true);
+            vh::obs_add("rejected_frames_between_accepted_ones");
+            const RV va = chain_ref(xa, cv.h, L);
+            const ld tola = 16 * ref::EPS * sg * std::max<ld>(maxabs(xa), 1e-300L);
+            bool ok = (ya.size() == long(xa.size()) * L / M);
+            int bad = -1;
+            for (int i = 0; ok && i < ya.size(); ++i) {
+                const long k = long(i) * M + c;
+                const ld ref_v = (k >= 0 && k < long(va.size())) ? va[k] : 0;
+                if (!(fabsl(ld(ya[i]) - ref_v) <= tola)) {
+                    ok = false;
+                    bad = i;
+                }
+            }
+            if (!ok) {
+                vh::violation(vh::fmt("C08/%s/state_changed_by_rejected_frame", cv.kind.c_str()),
+                              cfg + vh::fmt(": after a rejected frame of %d samples the outputs of the accepted stream no longer follow the chain (first bad output %d of %d)", badlen, bad, ya.size()));
+            }
+        }
     }
 }
 
@@ -429,8 +472,9 @@ int main(int argc, char** argv) {
     uint64_t idx = 0;
 
     std::vector<std::pair<int, int>> ratios;
-    for (int L = 1; L <= 16; ++L) {
-        for (int M = 1; M <= 16; ++M) {
+    const int rmax = thorough ? 24 : 16;
+    for (int L = 1; L <= rmax; ++L) {
+        for (int M = 1; M <= rmax; ++M) {
             if (std::gcd(L, M) == 1) {
                 ratios.push_back({L, M});
             }
@@ -470,6 +514,12 @@ int main(int argc, char** argv) {
         std::vector<int> hlens = {2, 2 * std::max(L, M) + 1, 4 * std::max(L, M), int(r.range(2, 40 * std::max(L, M)))};
         if (is_audio) {
             hlens = {2 * std::max(L, M) + 1, int(r.range(2, 8 * std::max(L, M)))};
+        } else if (thorough) {
+            //more coefficient lengths: around multiples of L and of M (padding path of the polyphase split), odd and even
+            const int k1 = int(r.range(1, 12));
+            hlens.push_back(k1 * L + 1);
+            hlens.push_back(k1 * M - 1 > 1 ? k1 * M - 1 : 3);
+            hlens.push_back(int(r.range(2, 40 * std::max(L, M))) | 1);
         }
         if (L == 1 && M == 1) {
             continue;
@@ -556,7 +606,7 @@ int main(int argc, char** argv) {
             }
         }
     }
-    vh::sample("resample(x,p,q): every reduced p,q<=16 + audio ratios; 1..3 tones below 0.8*min(1,p/q)*Nyquist, LS fit of the output against the tones at t=i*q/p+tau");
+    vh::sample("resample(x,p,q): every reduced p,q<=16 (thorough: 24) + audio ratios; 1..3 tones below 0.8*min(1,p/q)*Nyquist, LS fit of the output against the tones at t=i*q/p+tau");
     vh::g.exhaustive = true;
     return vh::finish();
 }
